@@ -111,6 +111,8 @@ static int packetise(struct vh_rng *r, struct psir_sec *secs, int ns, struct pay
             s->first_payload = np;
             s->start_off = q;
             p->nstarts++;
+            /* now and then the payload ends 1 or 2 octets into the header */
+            if (small_payloads && C - q > 2 && vh_chance(r, 1, 8)) C = q + 1 + (int)vh_below(r, 2);
             int room = C - q;
             int k = s->size < room ? s->size : room;
             memcpy(p->b + q, s->data, (size_t)k);
@@ -211,6 +213,13 @@ static void case_merge(struct vh_rng *r)
         if (must[i]) nmust++;
     }
 
+    if (vh_opts.verbose) {
+        for (int i = 0; i < np; i++)
+            vh_tr("p%d%s len=%d%s ptr=%d starts=%d [%s]", i, fed[i] ? "" : "(dropped)", pl[i].len, pl[i].pusi ? " PUSI" : "",
+                  pl[i].pusi ? pl[i].b[0] : -1, pl[i].nstarts, tsl_hex(pl[i].b, (size_t)pl[i].len, 10));
+        for (int i = 0; i < ns; i++)
+            vh_tr("s%d size=%d payloads %d..%d off=%d must=%d", i, secs[i].size, secs[i].first_payload, secs[i].last_payload, secs[i].start_off, must[i]);
+    }
     struct tsl_sink *out = tsl_sink_new("sections");
     struct upipe *merge = alloc_pipe(upipe_ts_psim_mgr_alloc(), "ts_psi_merge");
     set_flow_def(merge, "mpegtspsi.", "ts_psi_merge");
@@ -243,8 +252,11 @@ static void case_merge(struct vh_rng *r)
     if (dec) tsl_release(&dec);
     tsl_release(&merge);
 
-    /* outputs: each one equal to a generated section, in order, each once;
-     * every guaranteed section present */
+    /* (1) outputs: each one equal to a generated section, in order, each at
+     * most once (subsequence of the generated sequence; greedy matching is
+     * complete); (2) every guaranteed section present, in order (the
+     * guaranteed sections are a subsequence of the outputs).  Two separate
+     * matchings: identical sections may be generated twice. */
     int si = 0;
     for (size_t o = 0; o < out->n; o++) {
         struct tsl_rec *rec = &out->recs[o];
@@ -252,7 +264,6 @@ static void case_merge(struct vh_rng *r)
         for (int k = si; k < ns; k++)
             if ((size_t)secs[k].size == rec->size && !memcmp(secs[k].data, rec->data, rec->size)) { found = k; break; }
         if (found < 0) {
-            /* classification for the key */
             bool earlier = false;
             for (int k = 0; k < si; k++)
                 if ((size_t)secs[k].size == rec->size && !memcmp(secs[k].data, rec->data, rec->size)) earlier = true;
@@ -262,21 +273,22 @@ static void case_merge(struct vh_rng *r)
                          "output %zu (%zu octets, [%s]) equals none of the remaining generated sections (next expected: #%d of %d octets)",
                          o, rec->size, tsl_hex(rec->data, rec->size, 8), si, si < ns ? secs[si].size : 0);
         }
-        for (int k = si; k < found; k++)
-            if (must[k])
-                vh_violation(lossy || corrupt >= 0 ? "c16:merge:no-resync" : "c16:merge:section-lost",
-                             "section #%d (%d octets, payloads %d..%d, all delivered) was not output (scenario: %s, %d payloads dropped)",
-                             k, secs[k].size, secs[k].first_payload, secs[k].last_payload,
-                             corrupt >= 0 ? "corrupt header earlier" : lossy ? "loss" : "loss-free", ndrop);
         si = found + 1;
         VH_COUNT("merge.sections_output_checked");
     }
-    for (int k = si; k < ns; k++)
-        if (must[k])
+    size_t oi = 0;
+    for (int k = 0; k < ns; k++) {
+        if (!must[k]) continue;
+        while (oi < out->n && !(out->recs[oi].size == (size_t)secs[k].size && !memcmp(out->recs[oi].data, secs[k].data, out->recs[oi].size))) oi++;
+        if (oi == out->n)
             vh_violation(lossy || corrupt >= 0 ? "c16:merge:no-resync" : "c16:merge:section-lost",
                          "section #%d (%d octets, payloads %d..%d, all delivered) was not output (scenario: %s, %d payloads dropped, %zu outputs)",
                          k, secs[k].size, secs[k].first_payload, secs[k].last_payload,
                          corrupt >= 0 ? "corrupt header earlier" : lossy ? "loss" : "loss-free", ndrop, out->n);
+        oi++;
+    }
+    if (!lossy && corrupt < 0 && out->n != (size_t)ns)
+        vh_violation("c16:merge:section-duplicated-or-reordered", "%d sections generated, %zu output on a loss-free stream", ns, out->n);
     if (!lossy && corrupt < 0) { VH_COUNT("merge.cases_lossfree"); VH_ADD("merge.sections_lossfree", ns); }
     else if (lossy) { VH_COUNT("merge.cases_with_loss"); if (nmust) VH_COUNT("merge.resync_after_loss_checked"); }
     else { VH_COUNT("merge.cases_corrupt_header"); if (corrupt < ns - 1 && must[ns - 1]) VH_COUNT("merge.resync_after_corrupt_checked"); }
